@@ -45,6 +45,58 @@ def point3(sph, sp, d):
     return [sp[0], sp[1], 1000e3 - d]
 
 
+def far_longitude_surfaces(rng, tier, wdir, viol):
+    """-> (cases, nontrivial).  Appends violations to `viol`."""
+    cases = nontriv = 0
+    kinds = ["continental plate", "oceanic plate", "mantle layer"]
+        # ---- dense probes of surfaces with many nodes whose longitudes are written across the date line or 360 degrees away from the query longitude: the triangle lookup
+    #      then goes through its alias passes and, for points the kd-guided search does not find, through the full-scan fallback (about 1 % of the positions)
+    for fi, (lon0, width) in enumerate([(170.0, 20.0), (185.0, 30.0), (-200.0, 25.0), (150.0, 25.0)][:budget(tier, 4, 4)]):
+        kind = kinds[fi % 3]
+        lat0 = rng.choice([-30.0, 5.0, 25.0])
+        corners = [[lon0, lat0], [lon0 + width, lat0 + 1.0], [lon0 + width - 1.5, lat0 + 18.0], [lon0 + 0.5, lat0 + 16.5]]
+        extra = []
+        while len(extra) < 8:
+            q = [lon0 + width * rng.uniform(0.12, 0.88), lat0 + 17.0 * rng.uniform(0.15, 0.85)]
+            q = [round(q[0] * 4) / 4, round(q[1] * 4) / 4]
+            if q not in extra:
+                extra.append(q)
+        which = ["max depth", "min depth"][fi % 2]
+        base = 150e3 if which == "max depth" else 40e3
+        bx, by = rng.choice([-600.0, 400.0, 900.0]), rng.choice([-500.0, 700.0])
+        f = lambda p: base + bx * (p[0] - lon0) + by * (p[1] - lat0)
+        feat = {"model": kind, "name": "f", "coordinates": corners, which: [[f(p), [p]] for p in corners + extra], "composition models": [{"model": "uniform", "compositions": [0]}]}
+        feat["min depth" if which == "max depth" else "max depth"] = 0 if which == "max depth" else 400e3
+        w = {"version": "1.1", "coordinate system": {"model": "spherical", "depth method": "begin segment"}, "features": [feat]}
+        path = os.path.join(wdir, "far_%d.wb" % fi)
+        json.dump(w, open(path, "w"))
+        lines, meta = ["world w %s -" % path], [None]
+        ngrid = budget(tier, 22, 45)
+        for i in range(ngrid):
+            for j in range(ngrid):
+                sp = [lon0 + width * (0.1 + 0.8 * (i + 0.37) / ngrid), lat0 + 17.0 * (0.12 + 0.76 * (j + 0.61) / ngrid)]
+                val = f(sp)
+                m = abs(val) * 1e-6 + 1e-2
+                for d, above in ((val - m, False), (val + m, True)):
+                    exp_inside = above if which == "min depth" else (not above)
+                    lines.append(q3("w", point3(True, sp, d), d, [(4, 0, 0)])); meta.append((sp, d, exp_inside))
+        rc, out, err = proto.run_harness(lines)
+        if rc != 0 or len(out) != len(lines) or not out[0].startswith("ok"):
+            viol.append({"what": "library failed on a far-longitude surface world: rc=%s %s" % (rc, out[:1]), "world_json": w}); continue
+        for i, mm in enumerate(meta):
+            if mm is None:
+                continue
+            a = parse_answer(out[i]); cases += 1; nontriv += 1
+            got = a[0] == "ok" and a[1][0] != -1.0
+            if a[0] != "ok" or got != mm[2]:
+                viol.append({"what": "%s %s over longitudes %g..%g with 12 nodes sampled from one affine function: at surface point %s depth %r the feature is %s, the affine depth says %s" % (
+                    kind, which, lon0, lon0 + width, [round(v, 4) for v in mm[0]], mm[1], out[i][:40] if a[0] != "ok" else ("present" if got else "absent"), "present" if mm[2] else "absent"),
+                    "world_json": w, "cmd": lines[i]})
+                break
+
+    return cases, nontriv
+
+
 def oracle(seed, tier):
     rng = random.Random(seed * 524287 + 11)
     wdir = proto.workdir("C11_oracle")
@@ -135,50 +187,8 @@ def oracle(seed, tier):
                              out[i][:40] if a[0] != "ok" else ("present" if got else "absent"), "present" if m[2] else "absent", m[3]), "world_json": w, "cmd": lines[i]})
         if len(samples) < 3:
             samples.append({"world": path, "mode": mode, "which": which, "nodes": len(nodal), "probes": len(meta) - 1})
-    # ---- dense probes of surfaces with many nodes whose longitudes are written across the date line or 360 degrees away from the query longitude: the triangle lookup
-    #      then goes through its alias passes and, for points the kd-guided search does not find, through the full-scan fallback (about 1 % of the positions)
-    for fi, (lon0, width) in enumerate([(170.0, 20.0), (185.0, 30.0), (-200.0, 25.0), (150.0, 25.0)][:budget(tier, 4, 4)]):
-        kind = kinds[fi % 3]
-        lat0 = rng.choice([-30.0, 5.0, 25.0])
-        corners = [[lon0, lat0], [lon0 + width, lat0 + 1.0], [lon0 + width - 1.5, lat0 + 18.0], [lon0 + 0.5, lat0 + 16.5]]
-        extra = []
-        while len(extra) < 8:
-            q = [lon0 + width * rng.uniform(0.12, 0.88), lat0 + 17.0 * rng.uniform(0.15, 0.85)]
-            q = [round(q[0] * 4) / 4, round(q[1] * 4) / 4]
-            if q not in extra:
-                extra.append(q)
-        which = ["max depth", "min depth"][fi % 2]
-        base = 150e3 if which == "max depth" else 40e3
-        bx, by = rng.choice([-600.0, 400.0, 900.0]), rng.choice([-500.0, 700.0])
-        f = lambda p: base + bx * (p[0] - lon0) + by * (p[1] - lat0)
-        feat = {"model": kind, "name": "f", "coordinates": corners, which: [[f(p), [p]] for p in corners + extra], "composition models": [{"model": "uniform", "compositions": [0]}]}
-        feat["min depth" if which == "max depth" else "max depth"] = 0 if which == "max depth" else 400e3
-        w = {"version": "1.1", "coordinate system": {"model": "spherical", "depth method": "begin segment"}, "features": [feat]}
-        path = os.path.join(wdir, "far_%d.wb" % fi)
-        json.dump(w, open(path, "w"))
-        lines, meta = ["world w %s -" % path], [None]
-        ngrid = budget(tier, 22, 45)
-        for i in range(ngrid):
-            for j in range(ngrid):
-                sp = [lon0 + width * (0.1 + 0.8 * (i + 0.37) / ngrid), lat0 + 17.0 * (0.12 + 0.76 * (j + 0.61) / ngrid)]
-                val = f(sp)
-                m = abs(val) * 1e-6 + 1e-2
-                for d, above in ((val - m, False), (val + m, True)):
-                    exp_inside = above if which == "min depth" else (not above)
-                    lines.append(q3("w", point3(True, sp, d), d, [(4, 0, 0)])); meta.append((sp, d, exp_inside))
-        rc, out, err = proto.run_harness(lines)
-        if rc != 0 or len(out) != len(lines) or not out[0].startswith("ok"):
-            viol.append({"what": "library failed on a far-longitude surface world: rc=%s %s" % (rc, out[:1]), "world_json": w}); continue
-        for i, mm in enumerate(meta):
-            if mm is None:
-                continue
-            a = parse_answer(out[i]); cases += 1; nontriv += 1
-            got = a[0] == "ok" and a[1][0] != -1.0
-            if a[0] != "ok" or got != mm[2]:
-                viol.append({"what": "%s %s over longitudes %g..%g with 12 nodes sampled from one affine function: at surface point %s depth %r the feature is %s, the affine depth says %s" % (
-                    kind, which, lon0, lon0 + width, [round(v, 4) for v in mm[0]], mm[1], out[i][:40] if a[0] != "ok" else ("present" if got else "absent"), "present" if mm[2] else "absent"),
-                    "world_json": w, "cmd": lines[i]})
-                break
+    c_, n_ = far_longitude_surfaces(rng, tier, wdir, viol)
+    cases += c_; nontriv += n_
     # ---- probe of the recorded finding (a listed point on a corner with a zero coordinate)
     for sph in (False, True):
         corners = [[0, 0], [10, 0], [10, 10], [0, 10]] if sph else [[0, 0], [100e3, 0], [100e3, 100e3], [0, 100e3]]
